@@ -372,6 +372,55 @@ def _continue_guards_to_ifs(body: List[ast.stmt]) -> List[ast.stmt]:
     return out
 
 
+def _bare_returns_to_nesting(body: List[ast.stmt]) -> Optional[List[ast.stmt]]:
+    """`if c: A; return` followed by REST  is  `if c: A else: REST` (for statement lists whose bare returns all sit at the end of an
+    if-arm of the list itself, or are the last statement); None if a return sits anywhere else (in a loop, a try, a with)"""
+    out: List[ast.stmt] = []
+    for i, st in enumerate(body):
+        if isinstance(st, ast.Return):
+            if st.value is not None:
+                return None
+            return out          # what follows is dead
+        if isinstance(st, ast.If) and any(isinstance(n, ast.Return) for n in ast.walk(st)):
+            b = _bare_returns_to_nesting(st.body)
+            o = _bare_returns_to_nesting(st.orelse) if st.orelse else []
+            if b is None or o is None:
+                return None
+            body_returns = bool(st.body) and isinstance(st.body[-1], ast.Return)
+            else_returns = bool(st.orelse) and isinstance(st.orelse[-1], ast.Return)
+            rest = _bare_returns_to_nesting(body[i + 1:])
+            if rest is None:
+                return None
+            if body_returns and else_returns:
+                new_if = ast.If(test=st.test, body=b or [ast.Pass()], orelse=o)
+                out.append(ast.fix_missing_locations(ast.copy_location(new_if, st)))
+                return out
+            if body_returns:
+                new_if = ast.If(test=st.test, body=b or [ast.Pass()], orelse=o + rest)
+                out.append(ast.fix_missing_locations(ast.copy_location(new_if, st)))
+                return out
+            if else_returns:
+                new_if = ast.If(test=st.test, body=b + rest, orelse=o or [])
+                if not new_if.body:
+                    new_if.body = [ast.Pass()]
+                out.append(ast.fix_missing_locations(ast.copy_location(new_if, st)))
+                return out
+            return None          # a return deeper inside the arms: not the guard-clause shape
+        if any(isinstance(n, ast.Return) for n in ast.walk(st)):
+            return None
+        out.append(st)
+    return out
+
+
+def _simple_or_rows_display(v, max_items=8) -> bool:
+    """a tuple display of names / attributes / constants, or of rows of those (a small table written in place)"""
+    def simple(x):
+        return isinstance(x, (ast.Name, ast.Attribute, ast.Constant)) or _signed_literal(x)
+    if not (isinstance(v, ast.Tuple) and 0 < len(v.elts) <= max_items):
+        return False
+    return all(simple(x) or (isinstance(x, ast.Tuple) and 0 < len(x.elts) <= 4 and all(simple(y) for y in x.elts)) for x in v.elts)
+
+
 def _signed_literal(x) -> bool:
     return isinstance(x, ast.UnaryOp) and isinstance(x.op, (ast.USub, ast.UAdd)) and isinstance(x.operand, ast.Constant) \
         and isinstance(x.operand.value, (int, float)) and not isinstance(x.operand.value, bool)
@@ -593,6 +642,19 @@ def _collapse_result_copies(fn: ast.FunctionDef) -> None:
                 break
 
 
+class _PruneConstantIfExp(ast.NodeTransformer):
+    """`A if True else B` is A (a mode constant substituted for a name)"""
+
+    def visit_IfExp(self, node):
+        self.generic_visit(node)
+        t, neg = node.test, False
+        while isinstance(t, ast.UnaryOp) and isinstance(t.op, ast.Not):
+            t, neg = t.operand, not neg
+        if isinstance(t, ast.Constant) and isinstance(t.value, (bool, type(None))):
+            return node.body if (bool(t.value) != neg) else node.orelse
+        return node
+
+
 class _ApplyCallable(ast.NodeTransformer):
     """calls of the local name `g` become calls of the callable it stands for"""
 
@@ -604,11 +666,12 @@ class _ApplyCallable(ast.NodeTransformer):
         if isinstance(node.func, ast.Name) and node.func.id == self.g:
             kind = self.arm[0]
             if kind == "ref":
-                return ast.copy_location(ast.Call(func=copy.deepcopy(self.arm[1]), args=node.args, keywords=[]), node)
+                return ast.copy_location(ast.Call(func=copy.deepcopy(self.arm[1]), args=node.args, keywords=node.keywords), node)
             if kind == "partial":
-                return ast.copy_location(ast.Call(func=copy.deepcopy(self.arm[1]), args=[copy.deepcopy(a) for a in self.arm[2]] + node.args, keywords=[]), node)
+                return ast.copy_location(ast.Call(func=copy.deepcopy(self.arm[1]), args=[copy.deepcopy(a) for a in self.arm[2]] + node.args,
+                                                  keywords=node.keywords), node)
             params, body = self.arm[1], self.arm[2]
-            if len(params) == len(node.args):
+            if len(params) == len(node.args) and not node.keywords:
                 return ast.copy_location(_SubstName(dict(zip(params, node.args))).visit(copy.deepcopy(body)), node)
         return node
 
@@ -914,6 +977,27 @@ class Normalizer:
             ast.fix_missing_locations(x)
         return out
 
+    def _lower_matches_in(self, stmts):
+        out = []
+        for st in stmts:
+            if isinstance(st, ast.Match):
+                try:
+                    low = self._lower_match(st)
+                except _CannotInline:
+                    low = None
+                if low is not None:
+                    out.extend(self._lower_matches_in(low))
+                    continue
+            for f in ("body", "orelse", "finalbody"):
+                b = getattr(st, f, None)
+                if isinstance(b, list) and b and isinstance(b[0], ast.stmt):
+                    setattr(st, f, self._lower_matches_in(b))
+            if isinstance(st, ast.Try):
+                for h in st.handlers:
+                    h.body = self._lower_matches_in(h.body)
+            out.append(st)
+        return out
+
     def _distribute_callable_aliases(self, stmts):
         stmts = list(stmts)
         # f = x.meth (a bound method of a local or of self.<field>, kept in a local) ... f(args): the calls are x.meth(args)
@@ -1059,8 +1143,10 @@ class Normalizer:
         if isinstance(st, ast.Assign) and len(st.targets) == 1 and isinstance(st.targets[0], ast.Name):
             v = st.value
             if (isinstance(v, ast.Call) and (A.dotted(v.func) or "") in ("chain", "itertools.chain") and not v.keywords) or \
-                    (isinstance(v, ast.Tuple) and 0 < len(v.elts) <= 4 and all(isinstance(x, (ast.Name, ast.Attribute, ast.Constant)) for x in v.elts)):
+                    _simple_or_rows_display(v):
                 binds[st.targets[0].id] = v
+            elif isinstance(v, ast.Name) and v.id in binds:
+                binds[st.targets[0].id] = binds[v.id]       # a plain copy of such a name denotes the same display
         # setattr(obj, "name", v) with a literal identifier is the assignment obj.name = v
         if isinstance(st, ast.Expr) and isinstance(st.value, ast.Call) and isinstance(st.value.func, ast.Name) and st.value.func.id == "setattr" \
                 and len(st.value.args) == 3 and not st.value.keywords and isinstance(st.value.args[1], ast.Constant) \
@@ -1168,7 +1254,7 @@ class Normalizer:
         # a loop over a short display of rows `for a, b in ((x1, y1), (x2, y2))`: the body once per row; constant columns are substituted,
         # the others assigned first
         if isinstance(st, ast.For) and isinstance(st.iter, (ast.Tuple, ast.List)) and isinstance(st.target, ast.Tuple) \
-                and all(isinstance(x, ast.Name) for x in st.target.elts) and 0 < len(st.iter.elts) <= 4 and not st.orelse \
+                and all(isinstance(x, ast.Name) for x in st.target.elts) and 0 < len(st.iter.elts) <= 8 and not st.orelse \
                 and all(isinstance(r, (ast.Tuple, ast.List)) and len(r.elts) == len(st.target.elts)
                         and all(isinstance(x, (ast.Name, ast.Attribute, ast.Constant, ast.Subscript)) or _signed_literal(x) for x in r.elts)
                         for r in st.iter.elts) \
@@ -1189,6 +1275,8 @@ class Normalizer:
                             out.extend(self._stmt(a, cls, depth))
                     for b in st.body:
                         nb = _SubstName(sub).visit(copy.deepcopy(b)) if sub else copy.deepcopy(b)
+                        nb = _PruneConstantIfExp().visit(nb)
+                        ast.fix_missing_locations(nb)
                         out.extend(self._stmt(nb, cls, depth))
                 return out
         # a loop over a short tuple display of arbitrary expressions: the body once per element, the element assigned first
@@ -1377,7 +1465,12 @@ class Normalizer:
             return None
         rets = [n for n in own if isinstance(n, ast.Return)]
         if rets and not (len(rets) == 1 and body and body[-1] is rets[0] and rets[0].value is None):
-            return None
+            # early `return`s in guard clauses (`if c: yield x; return`) are the else-nesting of what follows
+            nested = _bare_returns_to_nesting(body) if all(r.value is None for r in rets) else None
+            if nested is None:
+                return None
+            body = nested
+            rets = []
         if rets:
             body = body[:-1]
         try:
@@ -1569,6 +1662,8 @@ class Normalizer:
             return None
         try:
             body = A.strip_docstring(copy.deepcopy(fn.body))
+            if _contains(ast.Module(body=body, type_ignores=[]), (ast.Match,)):
+                body = self._lower_matches_in(body)          # `match` with returns in its cases: the if/elif chain it abbreviates
             if _contains(ast.Module(body=body, type_ignores=[]), (ast.FunctionDef, ast.Lambda)):
                 body = self._distribute_callable_aliases(body)      # a conditionally chosen local callable is dissolved at its call sites
             if _contains(ast.Module(body=body, type_ignores=[]),
@@ -1667,7 +1762,7 @@ class Normalizer:
             a = ast.Assign(targets=[ast.Name(id=tgt, ctx=ast.Store())], value=val, lineno=getattr(at_stmt, "lineno", 0))
             stmts.append(ast.copy_location(a, at_stmt))
             if (isinstance(val, ast.Call) and (A.dotted(val.func) or "") in ("chain", "itertools.chain") and not val.keywords) or \
-                    (isinstance(val, ast.Tuple) and 0 < len(val.elts) <= 4 and all(isinstance(x, (ast.Name, ast.Attribute, ast.Constant)) for x in val.elts)):
+                    _simple_or_rows_display(val):
                 if getattr(self, "_iter_bind", None) is None:
                     self._iter_bind = {}
                 self._iter_bind[tgt] = val
@@ -1737,6 +1832,16 @@ class Normalizer:
         mapping = {n: f"{n}__{k}" for n in locals_}
         if selfname and bind_self is True:
             mapping.pop(selfname, None)
+        # a parameter bound to a plain local that the helper never rebinds *is* that local
+        rebound_cm = _stored_names(whole)
+        with_body_stores = {n.id for b in st.body for n in ast.walk(b) if isinstance(n, ast.Name) and isinstance(n.ctx, (ast.Store, ast.Del))}
+        direct_cm = {}
+        for pname, val in binds:
+            if isinstance(val, ast.Name) and pname not in rebound_cm and pname in mapping and val.id not in with_body_stores \
+                    and not (selfname and pname == selfname and bind_self is True):
+                direct_cm[pname] = val.id
+                mapping[pname] = val.id
+        binds = [(pn, v) for pn, v in binds if pn not in direct_cm]
         ren = _Renamer(mapping)
         yval = ren.visit(copy.deepcopy(ys[0].value)) if ys[0].value is not None else ast.Constant(value=None)
         pre = [ren.visit(x) for x in pre]
